@@ -4071,3 +4071,95 @@ pub fn c11_notification_protocol(nd: &mut Nondet) {
     // ---- after the connection was lost and everything was polled
     check("c11.lost-connection-ends-the-open-stream", !open);
 }
+
+// ------------------------------------------------------------------------------------------ C09 keep-alive downgrade timing
+use litep2p::verif_clock as vclock;
+
+/// C09 (this protocol's share of the idle mechanism): a connection's handle is downgraded once the keep-alive timeout has
+/// elapsed since the protocol's last keep-alive activity on it and the service is polled, never before; opening a
+/// substream counts as activity (and re-activates a downgraded handle) only for a keep-alive protocol.
+pub fn c09_keep_alive(nd: &mut Nondet) {
+    const TICK: u64 = 100;
+    let timeout_ms = (2 + nd.choose("timeout_ticks", 2)) * TICK;
+    let keep_alive = nd.bool("keep_alive_protocol");
+    let mut manager = TransportManagerBuilder::new().build();
+    let (mut service, _transport_end) = ts::new_service_with(&mut manager, Duration::from_millis(timeout_ms), keep_alive);
+    let peer = nd.peer_id_fixed(1);
+    // reference: live connections, primary first: (id, last activity [ms], downgraded)
+    let mut conns: Vec<(usize, u64, bool)> = Vec::new();
+    let mut channels: Vec<(usize, ts::CommandQueue)> = Vec::new();
+    let mut next_id = 0usize;
+    let mut now = 0u64;
+    let steps = param("steps", 5);
+    for _ in 0..steps {
+        match nd.choose("event", 5) {
+            0 => {
+                if conns.len() >= 2 { assume(false); }
+                let id = next_id; next_id += 1;
+                let (handle, queue) = ts::new_connection(ConnectionId::from(id));
+                channels.push((id, queue));
+                let endpoint = Endpoint::Listener { address: Multiaddr::empty(), connection_id: ConnectionId::from(id) };
+                let _ = ts::on_connection_established(&mut service, peer, endpoint, ConnectionId::from(id), handle);
+                conns.push((id, now, false));
+                // the tracker wakes the protocol task, which is polled before time passes (the idle timer is armed by that poll)
+                let _ = ts::poll_service(&mut service);
+                for c in conns.iter_mut() { if now >= c.1 + timeout_ms { c.2 = true; } }
+                cover("c09.established");
+            }
+            1 => {
+                let k = 1 + nd.choose("ticks", 2);
+                // time passes one tick at a time; a timer that becomes due wakes the protocol task, which is polled at that moment
+                for _ in 0..k {
+                    vclock::advance(TICK);
+                    now += TICK;
+                    let _ = ts::poll_service(&mut service);
+                    for c in conns.iter_mut() { if now >= c.1 + timeout_ms { if !c.2 { cover("c09.downgraded"); } c.2 = true; } }
+                }
+                cover("c09.time-passes");
+            }
+            2 => {
+                if conns.is_empty() { assume(false); }
+                match service.open_substream(peer) {
+                    Ok(_) => {
+                        cover("c09.substream-requested");
+                        for (_, queue) in channels.iter_mut() { let _ = ts::next_open_command(queue); }
+                        if keep_alive { conns[0].1 = now; conns[0].2 = false; }
+                        let _ = ts::poll_service(&mut service);
+                        for c in conns.iter_mut() { if now >= c.1 + timeout_ms { c.2 = true; } }
+                    }
+                    Err(_) => { check("c09.open-on-a-live-connection-is-accepted", false); }
+                }
+            }
+            3 => {
+                let _ = ts::poll_service(&mut service);
+                for c in conns.iter_mut() { if now >= c.1 + timeout_ms { if !c.2 { cover("c09.downgraded"); } c.2 = true; } }
+                cover("c09.polled");
+            }
+            _ => {
+                if conns.is_empty() { assume(false); }
+                let k = nd.choose("which", conns.len() as u64) as usize;
+                let (id, _, _) = conns.remove(k);
+                channels.retain(|(c, _)| *c != id);
+                let _ = ts::on_connection_closed(&mut service, peer, ConnectionId::from(id));
+                cover("c09.closed");
+            }
+        }
+        match (ts::connections_active(&service, &peer), conns.len()) {
+            (None, 0) => {}
+            (Some((primary, secondary)), n) if n > 0 => {
+                // not before the timeout since the last activity, and at the first poll after it
+                check("c09.primary-is-active-exactly-until-its-idle-timeout-is-noticed", primary == !conns[0].2);
+                if conns[0].2 { check("c09.no-downgrade-before-the-timeout", now >= conns[0].1 + timeout_ms); }
+                match (secondary, n) {
+                    (Some(active), 2) => {
+                        check("c09.secondary-is-active-exactly-until-its-idle-timeout-is-noticed", active == !conns[1].2);
+                        if conns[1].2 { check("c09.no-downgrade-before-the-timeout", now >= conns[1].1 + timeout_ms); }
+                    }
+                    (None, 1) => {}
+                    _ => check("c09.service-tracks-the-live-connections", false),
+                }
+            }
+            _ => check("c09.service-tracks-the-live-connections", false),
+        }
+    }
+}
